@@ -195,6 +195,11 @@ class Sandbox:
             self._stop_mocking(context)
             self._capture_exception(system_exit, sys.exc_info(),
                                     code, filename)
+        except BaseException:
+            # KeyboardInterrupt, GeneratorExit and the like are not reported,
+            # but the patches must not outlive the execution
+            self._stop_mocking(context)
+            raise
         else:
             self._stop_mocking(context)
 
